@@ -102,7 +102,11 @@ class CallGen:
                 l2 = l1 + "2"
             form = ch.draw(3, "piform")
             if form == 0:
-                body = [("decl", T, l1, ("var", "p")), ("expr", ("postinc", l1, 1)), ("return", ("var", l1))]
+                # (a bare `x++;` statement at the top level of a body is hoisted in front of the initialisation by the
+                #  compiler - statement order is C05/C06, not this property - so the increment sits inside a block)
+                body = [("decl", T, l1, ("var", "p")),
+                        ("if", ("cmp", "!=", ("var", l1), ("lit", 0, T)), [("expr", ("postinc", l1, 1))], []),
+                        ("return", ("var", l1))]
             elif form == 1:
                 body = [("decl", T, l1, ("var", "p")), ("decl", T, l2, ("postinc", l1, 1)),
                         ("return", ("bin", "^", ("var", l1), ("shift", "<<", ("var", l2), 1)))]
@@ -123,7 +127,11 @@ class CallGen:
                 body = [("return", ("call", g["name"], args))]
             elif form == 1:
                 E = Rg
-                body = [("decl", Rg, l1, ("call", g["name"], args)), ("expr", ("postinc", l1, 1)), ("return", ("var", l1))]
+                Tl = cref.promote(Rg)
+                body = [("decl", Tl, l1, ("call", g["name"], args)),
+                        ("if", ("cmp", "!=", ("var", l1), ("lit", 0, Tl)), [("expr", ("postinc", l1, 1))], []),
+                        ("return", ("var", l1))]
+                E = Tl
             else:
                 # two calls of the callee in one expression of the callee
                 if Rg[1] >= 32:
